@@ -81,6 +81,37 @@ theorem sortBy_filter_equiv {less : α → α → Bool} (h : StrictWeak less) (l
     ((sortBy_perm less l).filter _).length_eq.symm
   exact (hsub2.eq_of_length hlen).symm
 
+theorem equivBy_trans {less : α → α → Bool} (h : StrictWeak less) {x a b : α}
+    (ha : equivBy less x a = true) (hb : equivBy less x b = true) : equivBy less a b = true := by
+  simp [equivBy, not_less_of_equiv h ha hb, not_less_of_equiv h hb ha]
+
+/-- stability in position form: if the input carries strictly increasing indices, elements the
+    comparator does not distinguish appear with increasing indices in the output -/
+theorem sortBy_stable_idx {less : α → α → Bool} (h : StrictWeak less) (idx : α → Nat) (l : List α)
+    (hl : l.Pairwise (fun a b => idx a < idx b)) :
+    (sortBy less l).Pairwise (fun a b => equivBy less a b = true → idx a < idx b) := by
+  rw [List.pairwise_iff_forall_sublist]
+  intro p q hsub he
+  have hs := hsub.filter (equivBy less p)
+  rw [sortBy_filter_equiv h] at hs
+  rw [List.filter_cons_of_pos (equivBy_refl h p), List.filter_cons_of_pos he, List.filter_nil] at hs
+  exact (List.pairwise_iff_forall_sublist.mp hl) (hs.trans List.filter_sublist)
+
+/-- conversely: an output that is a permutation of an increasingly indexed input and keeps
+    indistinguishable elements in index order keeps every class in input order -/
+theorem filter_equiv_of_stable_idx {less : α → α → Bool} (h : StrictWeak less) (idx : α → Nat) (l r : List α)
+    (hl : l.Pairwise (fun a b => idx a < idx b)) (hperm : r.Perm l)
+    (hr : r.Pairwise (fun a b => equivBy less a b = true → idx a < idx b)) (x : α) :
+    r.filter (equivBy less x) = l.filter (equivBy less x) := by
+  apply List.Perm.eq_of_pairwise (le := fun a b => idx a < idx b)
+  · intro a b _ _ h1 h2; omega
+  · rw [List.pairwise_filter]
+    refine hr.imp ?_
+    intro a b hab ha hb
+    exact hab (equivBy_trans h ha hb)
+  · exact hl.sublist List.filter_sublist
+  · exact hperm.filter _
+
 /-- A sorted (w.r.t. a strict weak order), class-wise order-preserving permutation is unique. -/
 theorem stable_sorted_unique {less : α → α → Bool} (h : StrictWeak less) :
     ∀ (r₁ r₂ : List α), r₁.Perm r₂ →
